@@ -76,6 +76,7 @@ class Contract(object):
         self.post_hints = list(d.get('post_hints', []))
         for src in self.post_hints:
             _check_ghost(src, target)
+        self.native_clauses = set(d.get('native_clauses', ()))   # ensures evaluated only natively (bounded tier)
         self.search = d.get('search')      # name of an input generator (gens.GENS) for the native counterexample search
         self.variants = list(d.get('variants', []))   # extra units with some params fixed (e.g. prec=None)
         self.none_as = dict(d.get('none_as', {}))     # at call sites: param given as None means this value
